@@ -52,7 +52,7 @@ class TableSet:
 
     def tab(self, lst: list[dict]) -> int:
         rows = [{"id": e["id"], "ty": e["ty"], "addr": e["addr"], "scale": e["scale"], "lab": self.lab(e["labels"]),
-                 "addrL": e["addrL"]} for e in lst]
+                 "addrL": e["addrL"], "size": e.get("size", 0)} for e in lst]
         key = repr(rows)
         if key not in self._ti:
             self.tables.append(rows)
